@@ -35,8 +35,10 @@ def wellformed(s):
             if a:
                 return False
             if w:
-                # its writer first; further plain dependencies (e.g. on stored calls) are allowed
+                # its writer first; further plain dependencies (e.g. on stored calls) are allowed if the writer has them too
                 if not d or d[0] != w or s["side"][w - 1] != i or any(s["side"][p - 1] for p in d[1:]):
+                    return False
+                if any(p not in s["args"][w - 1] and p not in s["deps"][w - 1] for p in d[1:]):
                     return False
             elif d:
                 return False
@@ -139,10 +141,14 @@ def random_scenario(rng, n_min=3, n_max=8, norm=None):
                 deps.append(d); reg.append("none")
             elif role == "depsrc":
                 w = i - 1
-                extra = [p for p in cands if p != w and plan[p - 1] in ("stored", "plain") and rng.random() < 0.25]
+                extra = [p for p in cands if p != w and plan[p - 1] in ("stored", "plain", "src", "depsrc") and rng.random() < 0.25]
                 kind.append("call"); args.append([]); deps.append([w] + extra); reg.append("src")
                 wof[idx] = w
                 side[w - 1] = i
+                # what the source depends on, its writer depends on too (the data is produced after it)
+                for e in extra:
+                    if e not in args[w - 1] and e not in deps[w - 1]:
+                        deps[w - 1].append(e)
             else:
                 kind.append("call")
                 k = rng.choice([0, 1, 1, 2, 2, 3])
